@@ -893,8 +893,13 @@ func (w *Writer) appendTar(r io.Reader, lossless bool) error {
 	if lossless {
 		tr.RawAccounting = true
 	}
+	// The offsets recorded for chunks that share a stream are relative to the start of that stream: begin at a
+	// stream boundary also when entries have been appended to this writer before.
+	if err := w.closeGz(); err != nil {
+		return err
+	}
 	prevOffset := w.cw.n
-	var prevOffsetUncompressed int64
+	prevOffsetUncompressed := w.uncompressedCounter.n
 	for {
 		h, err := tr.Next()
 		if err == io.EOF {
